@@ -413,7 +413,7 @@ func (l *Linter) lintFunctionCallExpression(exp *ast.FunctionCallExpression, ctx
 	}
 
 	return l.lintFunctionArguments(fn, functionMeta{
-		name:      exp.Function.String(),
+		name:      exp.Function.Value, // not String(): comments around the name are not a part of it
 		token:     exp.Function.GetMeta().Token,
 		arguments: exp.Arguments,
 		meta:      exp.Meta,
